@@ -1,6 +1,1244 @@
-//! C14 -- monitor (to be written)
-use crate::fw::ctx;
+//! C14 -- QASM printing and parsing round-trip circuits; unsupported constructs are errors.
+//!
+//! (i)   `Circuit::from_qasm(c.to_qasm())` is `Ok` and structurally equal to `c` (qubit
+//!       count, gate names, qubit arguments, phases), exhaustively for single-gate circuits
+//!       with every phase k/d, d <= 16, -d < k <= d, and for random circuits over the
+//!       supported gate set, including zero-gate circuits and idle qubits.
+//! (ii)  generated QASM texts with an independently computed expectation: several
+//!       registers (consecutive numbering in declaration order), phase expressions in
+//!       many syntactic forms (exact for integer/pi arithmetic and dyadic decimals, within
+//!       the documented single-precision accuracy for other decimals), user gate
+//!       definitions (inlined), whole-register broadcasts, built-in `CX`, `measure`.
+//! (iii) texts containing barrier / reset / if / U / undefined names / names only defined
+//!       in the ignored include file must give `Err`: no panic, no `Ok`.
+//!
+//! The comparison never uses quizx's own `==` as the oracle (it is observed and a
+//! disagreement with the structural comparison is reported separately).
+
+use crate::fw::{ctx, guarded, par_cases, Caught};
+use crate::gen::circuit::{circ_hash, circ_json, gen_circuit, to_quizx, CircParams, PhPool};
+use crate::gen::prng::{hash_bytes, Rng};
+use crate::oracle::sim::{Circ, G};
+use quizx::circuit::Circuit;
+use quizx::gate::{GType, Gate};
+use serde_json::{json, Value};
+use std::sync::Arc;
+
+// ------------------------------------------------------------------------------------
+// expectation model
+// ------------------------------------------------------------------------------------
+
+fn gcd(a: i128, b: i128) -> i128 {
+    let (mut a, mut b) = (a.abs(), b.abs());
+    while b != 0 {
+        let t = a % b;
+        a = b;
+        b = t;
+    }
+    a
+}
+
+/// A phase in units of pi: exactly known (rational) or known up to a tolerance.
+#[derive(Clone, Debug)]
+struct PhaseVal {
+    exact: Option<(i128, i128)>,
+    val: f64,
+    /// accumulated magnitude (in units of pi) of the inexact literals, for the tolerance
+    mag: f64,
+}
+
+impl PhaseVal {
+    fn exact(n: i128, d: i128) -> PhaseVal {
+        assert!(d != 0);
+        let (n, d) = if d < 0 { (-n, -d) } else { (n, d) };
+        let g = gcd(n, d).max(1);
+        PhaseVal { exact: Some((n / g, d / g)), val: n as f64 / d as f64, mag: 0.0 }
+    }
+    fn approx(val: f64) -> PhaseVal {
+        PhaseVal { exact: None, val, mag: val.abs() }
+    }
+    fn scale(&self, n: i128, d: i128) -> PhaseVal {
+        let f = n as f64 / d as f64;
+        match self.exact {
+            Some((a, b)) => PhaseVal::exact(a * n, b * d),
+            None => PhaseVal { exact: None, val: self.val * f, mag: self.mag * f.abs() },
+        }
+    }
+    fn add(&self, o: &PhaseVal) -> PhaseVal {
+        match (self.exact, o.exact) {
+            (Some((a, b)), Some((c, d))) => PhaseVal::exact(a * d + c * b, b * d),
+            _ => PhaseVal { exact: None, val: self.val + o.val, mag: self.mag + o.mag },
+        }
+    }
+}
+
+/// documented accuracy of decimal parameters: f32 literals, f32 division by pi
+const DECIMAL_TOL: f64 = 1e-6;
+
+fn circle_dist_f(a: f64, b: f64) -> f64 {
+    let d = (a - b).rem_euclid(2.0);
+    d.min(2.0 - d)
+}
+
+/// observed phase (reduced rational, any representative) against the expectation
+fn phase_matches(exp: &PhaseVal, obs: (i64, i64)) -> bool {
+    match exp.exact {
+        Some((n, d)) => {
+            let num = n * obs.1 as i128 - obs.0 as i128 * d;
+            let den = 2 * d * obs.1 as i128;
+            den > 0 && num.rem_euclid(den) == 0
+        }
+        None => {
+            let o = obs.0 as f64 / obs.1 as f64;
+            circle_dist_f(exp.val, o) <= DECIMAL_TOL * exp.mag.max(1.0)
+        }
+    }
+}
+
+#[derive(Clone, Debug)]
+struct EGate {
+    name: String,
+    qs: Vec<usize>,
+    phase: Option<PhaseVal>,
+    bit: Option<u32>,
+    /// syntactic features of the statement this gate came from
+    tags: String,
+}
+
+fn gtype_name(t: GType) -> &'static str {
+    match t {
+        GType::ZPhase => "rz",
+        GType::XPhase => "rx",
+        GType::NOT => "x",
+        GType::Z => "z",
+        GType::S => "s",
+        GType::T => "t",
+        GType::Sdg => "sdg",
+        GType::Tdg => "tdg",
+        GType::HAD => "h",
+        GType::CNOT => "cx",
+        GType::CZ => "cz",
+        GType::TOFF => "ccx",
+        GType::CCZ => "ccz",
+        GType::SWAP => "swap",
+        GType::XCX => "xcx",
+        GType::InitAncilla => "init_anc",
+        GType::PostSelect => "post_sel",
+        GType::Measure => "measure",
+        GType::MeasureReset => "measure_r",
+        GType::ParityPhase => "pp",
+        GType::UnknownGate => "UNKNOWN",
+    }
+}
+
+fn gate_json(g: &Gate) -> Value {
+    let p = g.phase.to_rational();
+    json!({"name": gtype_name(g.t), "qs": g.qs, "phase": format!("{}/{}", p.numer(), p.denom()), "vars": g.vars.iter().collect::<Vec<u32>>()})
+}
+
+fn circuit_json(c: &Circuit) -> Value {
+    json!({"qubits": c.num_qubits(), "gates": c.gates.iter().take(80).map(gate_json).collect::<Vec<_>>(), "num_gates": c.num_gates()})
+}
+
+fn egate_json(e: &EGate) -> Value {
+    json!({"name": e.name, "qs": e.qs, "phase": e.phase.as_ref().map(|p| match p.exact { Some((n, d)) => format!("{n}/{d}"), None => format!("~{}", p.val) }), "bit": e.bit, "tags": e.tags})
+}
+
+/// Err((failure class, discriminating condition, explanation))
+fn compare(parsed: &Circuit, nq: usize, exp: &[EGate], strict_zero_phase: bool) -> Result<(), (String, String, Value)> {
+    if parsed.num_qubits() != nq {
+        let cond = if exp.is_empty() { "zero-gates" } else { "with-gates" };
+        return Err(("qubit-count".into(), cond.into(), json!({"expected_qubits": nq, "observed_qubits": parsed.num_qubits()})));
+    }
+    if parsed.num_gates() != exp.len() {
+        return Err(("gate-count".into(), String::new(), json!({"expected_gates": exp.len(), "observed_gates": parsed.num_gates()})));
+    }
+    for (i, (g, e)) in parsed.gates.iter().zip(exp.iter()).enumerate() {
+        let at = |what: &str| json!({"position": i, "what": what, "expected": egate_json(e), "observed": gate_json(g)});
+        if gtype_name(g.t) != e.name {
+            return Err(("gate-kind".into(), e.tags.clone(), at("gate kind")));
+        }
+        if g.qs != e.qs {
+            return Err(("qubit-arguments".into(), e.tags.clone(), at("qubit arguments")));
+        }
+        let r = g.phase.to_rational();
+        let obs = (*r.numer(), *r.denom());
+        match &e.phase {
+            Some(p) => {
+                if !phase_matches(p, obs) {
+                    let kind = if p.exact.is_some() { "exact" } else { "approx" };
+                    return Err(("phase".into(), format!("{}|{kind}", e.tags), at("phase")));
+                }
+            }
+            None => {
+                if strict_zero_phase && obs.0 != 0 {
+                    return Err(("phase-on-phaseless-gate".into(), e.tags.clone(), at("phase of a gate without parameter")));
+                }
+            }
+        }
+        let vars: Vec<u32> = g.vars.iter().collect();
+        match e.bit {
+            Some(b) => {
+                if vars != vec![b] {
+                    return Err(("measure-target".into(), e.tags.clone(), at("classical bit of measure")));
+                }
+            }
+            None => {
+                if strict_zero_phase && !vars.is_empty() {
+                    return Err(("vars-on-plain-gate".into(), e.tags.clone(), at("variables on a plain gate")));
+                }
+            }
+        }
+    }
+    Ok(())
+}
+
+fn parse(text: &str) -> Result<Result<Circuit, String>, Caught> {
+    let t = text.to_string();
+    guarded(move || Circuit::from_qasm(&t))
+}
+
+// ------------------------------------------------------------------------------------
+// (i) print / parse round trip
+// ------------------------------------------------------------------------------------
+
+fn expected_of_circ(c: &Circ, tags: &str) -> Vec<EGate> {
+    c.gates
+        .iter()
+        .map(|g| {
+            let phase = match g {
+                G::Rz(_, p) | G::Rx(_, p) => Some(PhaseVal::exact(p.0 as i128, p.1 as i128)),
+                _ => None,
+            };
+            let den = match g {
+                G::Rz(_, p) | G::Rx(_, p) => format!("{}|d={}", g.name(), p.1),
+                _ => g.name().to_string(),
+            };
+            EGate { name: g.name().to_string(), qs: g.qubits(), phase, bit: None, tags: format!("{tags}{den}") }
+        })
+        .collect()
+}
+
+/// returns true when the round trip was judged fine
+fn check_roundtrip(family: &'static str, index: u64, circ: &Circ, record: bool) -> bool {
+    let c = ctx();
+    let qc = to_quizx(circ);
+    let detail0 = json!({"circuit": circ_json(circ)});
+    let text = match guarded(|| qc.to_qasm()) {
+        Ok(t) => t,
+        Err(Caught::Oracle(m)) => {
+            c.inconclusive("oracle-error", json!({"msg": m}));
+            return false;
+        }
+        Err(e) => {
+            if record {
+                c.violation(&format!("to_qasm|panic|{}", e.site()), family, index, json!({"input": detail0, "panic": e.text()}));
+            }
+            return false;
+        }
+    };
+    let det = |extra: Value| json!({"circuit": circ_json(circ), "printed_qasm": text, "extra": extra});
+    match parse(&text) {
+        Err(Caught::Oracle(m)) => {
+            c.inconclusive("oracle-error", json!({"msg": m}));
+            false
+        }
+        Err(e) => {
+            if record {
+                c.violation(&format!("roundtrip|parse-panic|{}", e.site()), family, index, det(json!({"panic": e.text()})));
+            }
+            false
+        }
+        Ok(Err(msg)) => {
+            if record {
+                let cond = if circ.gates.is_empty() { "zero-gates" } else { "with-gates" };
+                c.violation(&format!("roundtrip|parse-err|{cond}"), family, index, det(json!({"expected": "Ok(circuit)", "observed_error": msg})));
+            }
+            false
+        }
+        Ok(Ok(parsed)) => {
+            let exp = expected_of_circ(circ, "");
+            match compare(&parsed, circ.n, &exp, true) {
+                Ok(()) => {
+                    // quizx's own equality must agree with the structural verdict
+                    if parsed != qc && record {
+                        c.violation(
+                            "roundtrip|quizx-eq-differs-but-structure-equal",
+                            family,
+                            index,
+                            det(json!({"parsed": circuit_json(&parsed)})),
+                        );
+                        return false;
+                    }
+                    true
+                }
+                Err((class, cond, why)) => {
+                    if record {
+                        c.violation(
+                            &format!("roundtrip|{class}|{cond}"),
+                            family,
+                            index,
+                            det(json!({"why": why, "parsed": circuit_json(&parsed)})),
+                        );
+                    }
+                    false
+                }
+            }
+        }
+    }
+}
+
+fn single_gate_space() -> Vec<Circ> {
+    let mut v = vec![];
+    // every phase k/d, d <= 16, -d < k <= d, on rz and rx, middle qubit of 3
+    for d in 1..=16i64 {
+        for k in (-d + 1)..=d {
+            let g = gcd(k as i128, d as i128).max(1) as i64;
+            let ph = (k / g, d / g);
+            v.push(Circ { n: 3, gates: vec![G::Rz(1, ph)] });
+            v.push(Circ { n: 3, gates: vec![G::Rx(1, ph)] });
+        }
+    }
+    // every phase-free gate on every tuple of distinct qubits of 3
+    for a in 0..3usize {
+        for g in [G::X(a), G::Z(a), G::S(a), G::T(a), G::Sdg(a), G::Tdg(a), G::H(a), G::InitAnc(a), G::PostSel(a)] {
+            v.push(Circ { n: 3, gates: vec![g] });
+        }
+        for b in 0..3usize {
+            if a == b {
+                continue;
+            }
+            for g in [G::Cx(a, b), G::Cz(a, b), G::Swap(a, b), G::Xcx(a, b)] {
+                v.push(Circ { n: 3, gates: vec![g] });
+            }
+            let t = 3 - a - b;
+            v.push(Circ { n: 3, gates: vec![G::Ccx(a, b, t)] });
+            v.push(Circ { n: 3, gates: vec![G::Ccz(a, b, t)] });
+        }
+    }
+    v
+}
+
+fn redraw_phases(r: &mut Rng, c: &mut Circ) {
+    for g in c.gates.iter_mut() {
+        if let G::Rz(_, p) | G::Rx(_, p) = g {
+            let d = r.range(1, 16);
+            let k = r.range(-d + 1, d);
+            let gg = gcd(k as i128, d as i128).max(1) as i64;
+            *p = (k / gg, d / gg);
+        }
+    }
+}
+
+// ------------------------------------------------------------------------------------
+// (ii) generated texts
+// ------------------------------------------------------------------------------------
+
+#[derive(Clone, Debug)]
+struct Reg {
+    name: String,
+    size: usize,
+    base: usize,
+}
+
+#[derive(Clone, Debug)]
+struct Regs {
+    q: Vec<Reg>,
+    c: Vec<Reg>,
+    nq: usize,
+    nc: usize,
+}
+
+fn gen_regs(r: &mut Rng, min_q: usize, need_creg: bool) -> Regs {
+    let qnames = ["q", "r", "anc", "data", "w", "b1"];
+    let cnames = ["c", "m", "out"];
+    let mut names: Vec<&str> = qnames.to_vec();
+    r.shuffle(&mut names);
+    loop {
+        let nr = 1 + r.below(3);
+        let mut q = vec![];
+        let mut base = 0;
+        for name in names.iter().take(nr) {
+            let size = 1 + r.below(4);
+            q.push(Reg { name: name.to_string(), size, base });
+            base += size;
+        }
+        if base < min_q {
+            continue;
+        }
+        let ncr = if need_creg { 1 + r.below(2) } else { r.below(3) };
+        let mut c = vec![];
+        let mut cb = 0;
+        for name in cnames.iter().take(ncr) {
+            let size = 1 + r.below(3);
+            c.push(Reg { name: name.to_string(), size, base: cb });
+            cb += size;
+        }
+        return Regs { q, c, nq: base, nc: cb };
+    }
+}
+
+/// k distinct qubits as (text, global index)
+fn pick_qubits(r: &mut Rng, regs: &Regs, k: usize) -> Vec<(String, usize)> {
+    let mut all: Vec<(String, usize)> = vec![];
+    for reg in &regs.q {
+        for i in 0..reg.size {
+            all.push((format!("{}[{}]", reg.name, i), reg.base + i));
+        }
+    }
+    r.shuffle(&mut all);
+    all.truncate(k);
+    all
+}
+
+fn fmt_dec(x: f64, digits: usize) -> String {
+    // the lexer needs digits on both sides of the point and has no exponent form
+    let s = format!("{:.*}", digits.max(1), x.abs());
+    s
+}
+
+/// A top-level phase expression for the value k/d (in units of pi) in a random syntactic form.
+fn gen_phase_expr(r: &mut Rng) -> (String, PhaseVal, String) {
+    let d = *r.pick(&[1i64, 2, 3, 4, 4, 5, 6, 7, 8, 8, 9, 10, 12, 16, 16]);
+    let k = match r.below(8) {
+        0 => d,
+        1 => 1,
+        2 => -1,
+        _ => r.range(-d + 1, d),
+    };
+    let exact = PhaseVal::exact(k as i128, d as i128);
+    let sign = if k < 0 { "-" } else { "" };
+    let ka = k.abs();
+    let form = r.below(12);
+    match form {
+        0 => {
+            let s = if k == 0 {
+                "0".to_string()
+            } else if d == 1 {
+                if ka == 1 {
+                    format!("{sign}pi")
+                } else {
+                    format!("{sign}{ka}*pi")
+                }
+            } else if ka == 1 {
+                format!("{sign}pi/{d}")
+            } else {
+                format!("{sign}{ka}*pi/{d}")
+            };
+            (s, exact, "k*pi/d".into())
+        }
+        1 => (format!("{sign}pi*{ka}/{d}"), exact, "pi*k/d".into()),
+        2 => (format!("{sign}{ka}/{d}*pi"), exact, "k/d*pi".into()),
+        3 => {
+            let s = match r.below(3) {
+                0 => format!("{sign}({ka}*pi)/{d}"),
+                1 => format!("{sign}{ka}*(pi/{d})"),
+                _ => format!("({sign}{ka}*((pi))/{d})"),
+            };
+            (s, exact, "parenthesised".into())
+        }
+        4 => {
+            // k/d = k1/d + k2/d
+            let k1 = r.range(-2 * d, 2 * d);
+            let k2 = k - k1;
+            let term = |x: i64| format!("{}*pi/{}", x.abs(), d);
+            let s = format!("{}{} {} {}", if k1 < 0 { "-" } else { "" }, term(k1), if k2 < 0 { "-" } else { "+" }, term(k2));
+            (s, exact, "sum".into())
+        }
+        5 => {
+            let m = *r.pick(&[1i64, -1, 2, -3]);
+            let kk = k + 2 * d * m;
+            // the value is kept unreduced: inside a gate body the parameter may be halved
+            (format!("{}{}*pi/{}", if kk < 0 { "-" } else { "" }, kk.abs(), d), PhaseVal::exact(kk as i128, d as i128), "outside(-pi,pi]".into())
+        }
+        6 | 7 => {
+            // dyadic decimal coefficient: exactly what to_qasm prints for these values
+            let dd = *r.pick(&[1i64, 2, 4, 8, 16]);
+            let kk = if r.chance(0.2) { dd } else { r.range(-dd + 1, dd) };
+            let x = kk as f64 / dd as f64;
+            let lit = if x.fract() == 0.0 { format!("{:.1}", x.abs()) } else { format!("{}", x.abs()) };
+            let sg = if kk < 0 { "-" } else { "" };
+            let s = if form == 6 { format!("{sg}{lit}*pi") } else { format!("{sg}pi*{lit}") };
+            (s, PhaseVal::exact(kk as i128, dd as i128), "dyadic-decimal*pi".into())
+        }
+        8 => {
+            // non-dyadic decimal coefficient: only approximately k/d
+            let digits = *r.pick(&[3usize, 5, 7, 10, 16]);
+            let lit = fmt_dec(k as f64 / d as f64, digits);
+            let v: f64 = lit.parse().unwrap();
+            let v = if k < 0 { -v } else { v };
+            let s = if r.chance(0.5) { format!("{sign}{lit}*pi") } else { format!("{sign}pi*{lit}") };
+            (s, PhaseVal::approx(v), "decimal*pi".into())
+        }
+        9 | 10 => {
+            // plain decimal in radians (form 10: several turns away from the principal range)
+            let digits = *r.pick(&[4usize, 6, 8, 12, 16]);
+            let turns = if form == 10 { *r.pick(&[1.0f64, -1.0, 3.0]) } else { 0.0 };
+            let rad = (k as f64 / d as f64 + 2.0 * turns) * std::f64::consts::PI;
+            let lit = fmt_dec(rad, digits);
+            let v: f64 = lit.parse().unwrap();
+            let v = if rad < 0.0 { -v } else { v };
+            let s = format!("{}{lit}", if rad < 0.0 { "-" } else { "" });
+            (s, PhaseVal::approx(v / std::f64::consts::PI), "decimal-radians".into())
+        }
+        _ => {
+            let (s, turns) = *r.pick(&[("0", 0i128), ("0*pi", 0), ("0.0", 0), ("pi-pi", 0), ("2*pi", 2), ("-2*pi", -2), ("0/4", 0)]);
+            (s.to_string(), PhaseVal::exact(turns, 1), "zero-mod-2pi".into())
+        }
+    }
+}
+
+/// phase = coef * param[idx] + off
+#[derive(Clone, Debug)]
+struct BodyExpr {
+    coef: Option<(usize, (i128, i128))>,
+    off: PhaseVal,
+}
+
+impl BodyExpr {
+    fn eval(&self, params: &[PhaseVal]) -> PhaseVal {
+        match self.coef {
+            Some((i, (n, d))) => params[i].scale(n, d).add(&self.off),
+            None => self.off.clone(),
+        }
+    }
+}
+
+fn gen_body_expr(r: &mut Rng, pnames: &[String]) -> (String, BodyExpr) {
+    let zero = PhaseVal::exact(0, 1);
+    if pnames.is_empty() || r.chance(0.25) {
+        // constant, exact forms only
+        let d = *r.pick(&[1i64, 2, 4, 8, 3]);
+        let k = r.range(-d + 1, d);
+        let s = format!("{}{}*pi/{}", if k < 0 { "-" } else { "" }, k.abs(), d);
+        return (s, BodyExpr { coef: None, off: PhaseVal::exact(k as i128, d as i128) });
+    }
+    let i = r.below(pnames.len());
+    let p = &pnames[i];
+    match r.below(8) {
+        0 => (p.clone(), BodyExpr { coef: Some((i, (1, 1))), off: zero }),
+        1 => (format!("-{p}"), BodyExpr { coef: Some((i, (-1, 1))), off: zero }),
+        2 => (format!("{p}/2"), BodyExpr { coef: Some((i, (1, 2))), off: zero }),
+        3 => (format!("2*{p}"), BodyExpr { coef: Some((i, (2, 1))), off: zero }),
+        4 => (format!("{p}+pi/4"), BodyExpr { coef: Some((i, (1, 1))), off: PhaseVal::exact(1, 4) }),
+        5 => (format!("{p} - pi/2"), BodyExpr { coef: Some((i, (1, 1))), off: PhaseVal::exact(-1, 2) }),
+        6 => (format!("-({p}+pi)/2"), BodyExpr { coef: Some((i, (-1, 2))), off: PhaseVal::exact(-1, 2) }),
+        _ => (format!("{p}*3/4"), BodyExpr { coef: Some((i, (3, 4))), off: zero }),
+    }
+}
+
+#[derive(Clone, Debug)]
+enum BStmt {
+    Prim { name: &'static str, phase: Option<BodyExpr>, args: Vec<usize> },
+    Call { def: usize, params: Vec<BodyExpr>, args: Vec<usize> },
+}
+
+#[derive(Clone, Debug)]
+struct Def {
+    name: String,
+    nparams: usize,
+    nargs: usize,
+    body: Vec<BStmt>,
+    text: String,
+}
+
+const PRIMS1: [&str; 9] = ["x", "z", "s", "t", "sdg", "tdg", "h", "init_anc", "post_sel"];
+const PRIMS2: [&str; 4] = ["cx", "cz", "swap", "xcx"];
+const PRIMS3: [&str; 2] = ["ccx", "ccz"];
+
+fn distinct_idx(r: &mut Rng, n: usize, k: usize) -> Vec<usize> {
+    let mut v: Vec<usize> = (0..n).collect();
+    r.shuffle(&mut v);
+    v.truncate(k);
+    v
+}
+
+fn gen_def(r: &mut Rng, idx: usize, earlier: &[Def]) -> Def {
+    let name = format!("{}{}", *r.pick(&["foo", "bar", "my_gate", "u_block", "G"]), idx);
+    let nparams = r.below(3);
+    let nargs = 1 + r.below(3);
+    let pnames: Vec<String> = (0..nparams).map(|i| ["theta", "phi", "lam"][i].to_string()).collect();
+    let anames: Vec<String> = (0..nargs).map(|i| ["a", "b", "c"][i].to_string()).collect();
+    let mut body = vec![];
+    let mut lines = vec![];
+    let nst = 1 + r.below(4);
+    for _ in 0..nst {
+        let choice = r.below(10);
+        if choice < 3 {
+            let nm = *r.pick(&PRIMS1);
+            let a = distinct_idx(r, nargs, 1);
+            lines.push(format!("{nm} {};", anames[a[0]]));
+            body.push(BStmt::Prim { name: nm, phase: None, args: a });
+        } else if choice < 6 {
+            let nm = *r.pick(&["rz", "rx"]);
+            let a = distinct_idx(r, nargs, 1);
+            let (s, e) = gen_body_expr(r, &pnames);
+            lines.push(format!("{nm}({s}) {};", anames[a[0]]));
+            body.push(BStmt::Prim { name: nm, phase: Some(e), args: a });
+        } else if choice < 8 && nargs >= 2 {
+            let a = distinct_idx(r, nargs, 2);
+            if r.chance(0.3) {
+                lines.push(format!("CX {},{};", anames[a[0]], anames[a[1]]));
+                body.push(BStmt::Prim { name: "cx", phase: None, args: a });
+            } else {
+                let nm = *r.pick(&PRIMS2);
+                lines.push(format!("{nm} {}, {};", anames[a[0]], anames[a[1]]));
+                body.push(BStmt::Prim { name: nm, phase: None, args: a });
+            }
+        } else if choice == 8 && nargs >= 3 {
+            let nm = *r.pick(&PRIMS3);
+            let a = distinct_idx(r, nargs, 3);
+            lines.push(format!("{nm} {},{},{};", anames[a[0]], anames[a[1]], anames[a[2]]));
+            body.push(BStmt::Prim { name: nm, phase: None, args: a });
+        } else if !earlier.is_empty() {
+            let di = r.below(earlier.len());
+            let dd = &earlier[di];
+            if dd.nargs <= nargs {
+                let a = distinct_idx(r, nargs, dd.nargs);
+                let mut ps = vec![];
+                let mut ptxt = vec![];
+                for _ in 0..dd.nparams {
+                    let (s, e) = gen_body_expr(r, &pnames);
+                    ptxt.push(s);
+                    ps.push(e);
+                }
+                let ptxt = if ptxt.is_empty() { String::new() } else { format!("({})", ptxt.join(",")) };
+                lines.push(format!("{}{} {};", dd.name, ptxt, a.iter().map(|&i| anames[i].clone()).collect::<Vec<_>>().join(",")));
+                body.push(BStmt::Call { def: di, params: ps, args: a });
+            }
+        }
+    }
+    if body.is_empty() {
+        lines.push(format!("h {};", anames[0]));
+        body.push(BStmt::Prim { name: "h", phase: None, args: vec![0] });
+    }
+    let ptxt = if nparams == 0 { String::new() } else { format!("({})", pnames.join(",")) };
+    let text = format!("gate {name}{ptxt} {} {{ {} }}", anames.join(","), lines.join(" "));
+    Def { name, nparams, nargs, body, text }
+}
+
+fn expand(defs: &[Def], di: usize, params: &[PhaseVal], qubits: &[usize], tags: &str, out: &mut Vec<EGate>) {
+    for st in &defs[di].body {
+        match st {
+            BStmt::Prim { name, phase, args } => out.push(EGate {
+                name: name.to_string(),
+                qs: args.iter().map(|&i| qubits[i]).collect(),
+                phase: phase.as_ref().map(|e| e.eval(params)),
+                bit: None,
+                tags: tags.to_string(),
+            }),
+            BStmt::Call { def, params: ps, args } => {
+                let pv: Vec<PhaseVal> = ps.iter().map(|e| e.eval(params)).collect();
+                let qs: Vec<usize> = args.iter().map(|&i| qubits[i]).collect();
+                expand(defs, *def, &pv, &qs, tags, out);
+            }
+        }
+    }
+}
+
+struct Program {
+    text: String,
+    regs: Regs,
+    expected: Vec<EGate>,
+    features: Vec<String>,
+}
+
+/// One supported top-level statement: text + expected gates.
+fn gen_statement(r: &mut Rng, regs: &Regs, defs: &[Def], allow_measure: bool, feats: &mut Vec<String>) -> Option<(String, Vec<EGate>)> {
+    let multi = if regs.q.len() > 1 { "multi-register|" } else { "" };
+    let choice = r.below(20);
+    let sp = |r: &mut Rng| if r.chance(0.2) { "" } else { " " };
+    if choice < 5 {
+        let nm = *r.pick(&PRIMS1);
+        let q = pick_qubits(r, regs, 1);
+        Some((format!("{nm} {};", q[0].0), vec![EGate { name: nm.into(), qs: vec![q[0].1], phase: None, bit: None, tags: format!("{multi}plain") }]))
+    } else if choice < 10 {
+        let nm = *r.pick(&["rz", "rx"]);
+        let q = pick_qubits(r, regs, 1);
+        let (s, pv, form) = gen_phase_expr(r);
+        feats.push(format!("phase-form:{form}"));
+        Some((
+            format!("{nm}({s}) {};", q[0].0),
+            vec![EGate { name: nm.into(), qs: vec![q[0].1], phase: Some(pv), bit: None, tags: format!("{multi}phase-form:{form}") }],
+        ))
+    } else if choice < 13 {
+        if regs.nq < 2 {
+            return None;
+        }
+        let q = pick_qubits(r, regs, 2);
+        if r.chance(0.2) {
+            feats.push("builtin-CX".into());
+            Some((format!("CX {},{}{};", q[0].0, sp(r), q[1].0), vec![EGate { name: "cx".into(), qs: vec![q[0].1, q[1].1], phase: None, bit: None, tags: format!("{multi}builtin-CX") }]))
+        } else {
+            let nm = *r.pick(&PRIMS2);
+            Some((format!("{nm} {},{}{};", q[0].0, sp(r), q[1].0), vec![EGate { name: nm.into(), qs: vec![q[0].1, q[1].1], phase: None, bit: None, tags: format!("{multi}plain") }]))
+        }
+    } else if choice == 13 {
+        if regs.nq < 3 {
+            return None;
+        }
+        let nm = *r.pick(&PRIMS3);
+        let q = pick_qubits(r, regs, 3);
+        Some((
+            format!("{nm} {}, {}, {};", q[0].0, q[1].0, q[2].0),
+            vec![EGate { name: nm.into(), qs: vec![q[0].1, q[1].1, q[2].1], phase: None, bit: None, tags: format!("{multi}plain") }],
+        ))
+    } else if choice < 16 {
+        // whole-register broadcast
+        feats.push("broadcast".into());
+        let ri = r.below(regs.q.len());
+        let reg = &regs.q[ri];
+        if r.chance(0.6) || regs.q.len() < 2 {
+            if r.chance(0.5) {
+                let nm = *r.pick(&PRIMS1);
+                let gs = (0..reg.size).map(|i| EGate { name: nm.into(), qs: vec![reg.base + i], phase: None, bit: None, tags: format!("{multi}broadcast") }).collect();
+                Some((format!("{nm} {};", reg.name), gs))
+            } else {
+                let (s, pv, form) = gen_phase_expr(r);
+                let gs = (0..reg.size)
+                    .map(|i| EGate { name: "rz".into(), qs: vec![reg.base + i], phase: Some(pv.clone()), bit: None, tags: format!("{multi}broadcast|phase-form:{form}") })
+                    .collect();
+                Some((format!("rz({s}) {};", reg.name), gs))
+            }
+        } else {
+            // two-qubit gate: register against a single qubit of another register, or two equal-size registers
+            let rj = (ri + 1 + r.below(regs.q.len() - 1)) % regs.q.len();
+            let other = &regs.q[rj];
+            let nm = *r.pick(&["cx", "cz"]);
+            if other.size == reg.size && r.chance(0.5) {
+                let gs = (0..reg.size).map(|i| EGate { name: nm.into(), qs: vec![reg.base + i, other.base + i], phase: None, bit: None, tags: format!("{multi}broadcast") }).collect();
+                Some((format!("{nm} {},{};", reg.name, other.name), gs))
+            } else {
+                let j = r.below(other.size);
+                if r.chance(0.5) {
+                    let gs = (0..reg.size).map(|i| EGate { name: nm.into(), qs: vec![reg.base + i, other.base + j], phase: None, bit: None, tags: format!("{multi}broadcast") }).collect();
+                    Some((format!("{nm} {},{}[{}];", reg.name, other.name, j), gs))
+                } else {
+                    let gs = (0..reg.size).map(|i| EGate { name: nm.into(), qs: vec![other.base + j, reg.base + i], phase: None, bit: None, tags: format!("{multi}broadcast") }).collect();
+                    Some((format!("{nm} {}[{}],{};", other.name, j, reg.name), gs))
+                }
+            }
+        }
+    } else if choice < 19 {
+        if defs.is_empty() {
+            return None;
+        }
+        let di = r.below(defs.len());
+        let d = &defs[di];
+        if d.nargs > regs.nq {
+            return None;
+        }
+        feats.push("user-gate".into());
+        let q = pick_qubits(r, regs, d.nargs);
+        let mut ps = vec![];
+        let mut ptxt = vec![];
+        let mut forms = vec![];
+        for _ in 0..d.nparams {
+            let (s, pv, form) = gen_phase_expr(r);
+            ptxt.push(s);
+            ps.push(pv);
+            forms.push(form);
+        }
+        let ptxt = if ptxt.is_empty() { String::new() } else { format!("({})", ptxt.join(", ")) };
+        let mut out = vec![];
+        let tags = format!("{multi}user-gate{}", if forms.is_empty() { String::new() } else { format!("|phase-form:{}", forms.join("+")) });
+        expand(defs, di, &ps, &q.iter().map(|x| x.1).collect::<Vec<_>>(), &tags, &mut out);
+        Some((format!("{}{} {};", d.name, ptxt, q.iter().map(|x| x.0.clone()).collect::<Vec<_>>().join(",")), out))
+    } else {
+        if !allow_measure || regs.c.is_empty() {
+            return None;
+        }
+        feats.push("measure".into());
+        let ci = r.below(regs.c.len());
+        let creg = &regs.c[ci];
+        let same: Vec<&Reg> = regs.q.iter().filter(|q| q.size == creg.size).collect();
+        if !same.is_empty() && r.chance(0.3) {
+            let qreg = *r.pick(&same);
+            let gs = (0..qreg.size)
+                .map(|i| EGate { name: "measure".into(), qs: vec![qreg.base + i], phase: None, bit: Some((creg.base + i) as u32), tags: format!("{multi}measure|broadcast") })
+                .collect();
+            Some((format!("measure {} -> {};", qreg.name, creg.name), gs))
+        } else {
+            let q = pick_qubits(r, regs, 1);
+            let j = r.below(creg.size);
+            Some((
+                format!("measure {}{}->{}{}[{}];", q[0].0, sp(r), sp(r), creg.name, j),
+                vec![EGate { name: "measure".into(), qs: vec![q[0].1], phase: None, bit: Some((creg.base + j) as u32), tags: format!("{multi}measure") }],
+            ))
+        }
+    }
+}
+
+/// `late_at = Some(i)`: the last qreg is declared just before statement i (i >= 1) instead of
+/// with the other registers (legal OpenQASM 2; numbering is still by declaration order).
+fn assemble(r: &mut Rng, regs: &Regs, defs: &[Def], stmts: &[String], late_at: Option<usize>) -> String {
+    let mut s = String::from("OPENQASM 2.0;\n");
+    if r.chance(0.8) {
+        s += "include \"qelib1.inc\";\n";
+    }
+    if r.chance(0.3) {
+        s += "// generated by qvmon C14\n";
+    }
+    // declarations: the relative order of qregs (and of cregs) is fixed, interleaving is free
+    let mut decls: Vec<String> = vec![];
+    let (mut qi, mut ci) = (0, 0);
+    let late_at = if regs.q.len() > 1 { late_at } else { None };
+    let nq_first = if late_at.is_some() { regs.q.len() - 1 } else { regs.q.len() };
+    while qi < nq_first || ci < regs.c.len() {
+        let take_q = qi < nq_first && (ci >= regs.c.len() || r.chance(0.6));
+        if take_q {
+            decls.push(format!("qreg {}[{}];", regs.q[qi].name, regs.q[qi].size));
+            qi += 1;
+        } else {
+            decls.push(format!("creg {}[{}];", regs.c[ci].name, regs.c[ci].size));
+            ci += 1;
+        }
+    }
+    // gate definitions may come before or after the registers
+    let defs_first = r.chance(0.5);
+    let sep = |r: &mut Rng| if r.chance(0.85) { "\n" } else { " " };
+    if defs_first {
+        for d in defs {
+            s += &d.text;
+            s += sep(r);
+        }
+    }
+    for d in &decls {
+        s += d;
+        s += sep(r);
+    }
+    if !defs_first {
+        for d in defs {
+            s += &d.text;
+            s += sep(r);
+        }
+    }
+    for (i, st) in stmts.iter().enumerate() {
+        if late_at == Some(i) {
+            let q = regs.q.last().unwrap();
+            s += &format!("qreg {}[{}];\n", q.name, q.size);
+        }
+        s += st;
+        if r.chance(0.1) {
+            s += " // comment ; x q[0];";
+        }
+        s += "\n";
+    }
+    if late_at == Some(stmts.len()) {
+        let q = regs.q.last().unwrap();
+        s += &format!("qreg {}[{}];\n", q.name, q.size);
+    }
+    s
+}
+
+fn gen_program(r: &mut Rng, max_stmts: usize) -> Program {
+    let regs = gen_regs(r, 1, false);
+    let mut defs: Vec<Def> = vec![];
+    let nd = if r.chance(0.5) { 0 } else { 1 + r.below(3) };
+    for i in 0..nd {
+        let d = gen_def(r, i, &defs);
+        defs.push(d);
+    }
+    let ns = 1 + r.below(max_stmts);
+    let mut stmts = vec![];
+    let mut expected = vec![];
+    let mut feats = vec![];
+    let mut tries = 0;
+    while stmts.len() < ns && tries < 10 * ns {
+        tries += 1;
+        if let Some((t, gs)) = gen_statement(r, &regs, &defs, true, &mut feats) {
+            stmts.push(t);
+            expected.extend(gs);
+        }
+    }
+    // a register may be declared after some statements, as long as none of them uses it
+    let mut late_at = None;
+    if regs.q.len() > 1 && r.chance(0.2) {
+        let last = regs.q.last().unwrap();
+        // syntactic use: the register name occurs as an identifier token in the statement
+        let mentions = |st: &String| st.split(|ch: char| !(ch.is_ascii_alphanumeric() || ch == '_')).any(|tok| tok == last.name);
+        let first_use = stmts.iter().position(mentions).unwrap_or(stmts.len());
+        if first_use >= 1 {
+            late_at = Some(1 + r.below(first_use));
+            feats.push("late-qreg-declaration".into());
+        }
+    }
+    let text = assemble(r, &regs, &defs, &stmts, late_at);
+    if regs.q.len() > 1 {
+        feats.push("multi-register".into());
+    }
+    if !defs.is_empty() {
+        feats.push("has-gate-definitions".into());
+    }
+    feats.sort();
+    feats.dedup();
+    Program { text, regs, expected, features: feats }
+}
+
+fn check_text(family: &'static str, index: u64, p: &Program) {
+    let c = ctx();
+    for f in &p.features {
+        c.count(&format!("feature:{f}"), 1);
+    }
+    let det = |extra: Value| {
+        json!({"qasm": p.text, "expected_qubits": p.regs.nq, "expected_gates": p.expected.iter().take(80).map(egate_json).collect::<Vec<_>>(), "features": p.features, "extra": extra})
+    };
+    match parse(&p.text) {
+        Err(Caught::Oracle(m)) => c.inconclusive("oracle-error", json!({"msg": m})),
+        Err(e) => c.violation(&format!("text|parse-panic|{}", e.site()), family, index, det(json!({"panic": e.text()}))),
+        Ok(Err(msg)) => {
+            // which feature set? use the sorted feature list as the discriminating condition
+            c.violation(&format!("text|rejected-valid-program|{}", p.features.join("+")), family, index, det(json!({"expected": "Ok", "observed_error": msg})));
+        }
+        Ok(Ok(parsed)) => {
+            c.count("text:accepted", 1);
+            c.count("text:gates-compared", p.expected.len() as u64);
+            c.count("text:phases-exact", p.expected.iter().filter(|e| e.phase.as_ref().is_some_and(|p| p.exact.is_some())).count() as u64);
+            c.count("text:phases-approx", p.expected.iter().filter(|e| e.phase.as_ref().is_some_and(|p| p.exact.is_none())).count() as u64);
+            // how many of the approximate ones came out as a fraction with denominator <= 64
+            for (g, e) in parsed.gates.iter().zip(p.expected.iter()) {
+                if e.phase.as_ref().is_some_and(|p| p.exact.is_none()) && *g.phase.to_rational().denom() <= 64 {
+                    c.count("text:approx-phase-parsed-to-small-fraction", 1);
+                }
+            }
+            if let Err((class, cond, why)) = compare(&parsed, p.regs.nq, &p.expected, false) {
+                c.violation(&format!("text|{class}|{cond}"), family, index, det(json!({"why": why, "parsed": circuit_json(&parsed)})));
+            }
+        }
+    }
+}
+
+// ------------------------------------------------------------------------------------
+// (iii) rejection corpus
+// ------------------------------------------------------------------------------------
+
+/// (construct class, statement text(s), extra top-level definitions)
+fn gen_unsupported(r: &mut Rng, regs: &Regs) -> (String, String, String) {
+    let q1 = pick_qubits(r, regs, 1);
+    let q2 = if regs.nq >= 2 { pick_qubits(r, regs, 2) } else { vec![] };
+    let q3 = if regs.nq >= 3 { pick_qubits(r, regs, 3) } else { vec![] };
+    let reg = r.pick(&regs.q).name.clone();
+    let creg = regs.c[r.below(regs.c.len())].clone();
+    let none = String::new();
+    loop {
+        match r.below(12) {
+            0 => {
+                let s = match r.below(3) {
+                    0 => format!("barrier {reg};"),
+                    1 => format!("barrier {};", q1[0].0),
+                    _ if q2.len() == 2 => format!("barrier {},{};", q2[0].0, q2[1].0),
+                    _ => format!("barrier {reg};"),
+                };
+                return ("barrier".into(), s, none);
+            }
+            1 => {
+                let s = if r.chance(0.5) { format!("reset {};", q1[0].0) } else { format!("reset {reg};") };
+                return ("reset".into(), s, none);
+            }
+            2 | 3 => {
+                let val = r.below(2);
+                let then = match r.below(6) {
+                    0 => format!("x {};", q1[0].0),
+                    1 => format!("rz(pi/4) {};", q1[0].0),
+                    2 if q2.len() == 2 => format!("cx {},{};", q2[0].0, q2[1].0),
+                    3 => format!("measure {} -> {}[0];", q1[0].0, creg.name),
+                    4 => format!("U(pi,0,pi) {};", q1[0].0),
+                    5 => format!("h {reg};"),
+                    _ => format!("z {};", q1[0].0),
+                };
+                let s = if r.chance(0.5) { format!("if({}=={}) {}", creg.name, val, then) } else { format!("if ( {} == {} ) {}", creg.name, val, then) };
+                return ("conditional".into(), s, none);
+            }
+            4 => {
+                let s = match r.below(4) {
+                    0 => format!("U(pi/2,0,pi) {};", q1[0].0),
+                    1 => format!("U(0,0,pi/4) {};", q1[0].0),
+                    2 => format!("U(0.1,0.2,0.3) {reg};"),
+                    _ => format!("U(0,0,0) {};", q1[0].0),
+                };
+                return ("U".into(), s, none);
+            }
+            5 => {
+                // U / barrier hidden inside a user gate definition
+                if r.chance(0.5) {
+                    return ("U-in-gate-body".into(), format!("hidden_u {};", q1[0].0), "gate hidden_u a { h a; U(0,0,pi/2) a; h a; }".into());
+                } else if q2.len() == 2 {
+                    return (
+                        "barrier-in-gate-body".into(),
+                        format!("hidden_b {},{};", q2[0].0, q2[1].0),
+                        "gate hidden_b a,b { cx a,b; barrier a,b; cx a,b; }".into(),
+                    );
+                }
+            }
+            6 | 7 => {
+                let s = match r.below(5) {
+                    0 => format!("foo {};", q1[0].0),
+                    1 => format!("mygate(0.3) {};", q1[0].0),
+                    2 if q2.len() == 2 => format!("rzz(pi/2) {},{};", q2[0].0, q2[1].0),
+                    3 => format!("sx {};", q1[0].0),
+                    _ => format!("hh {reg};"),
+                };
+                return ("undefined-gate".into(), s, none);
+            }
+            8 | 9 => {
+                // defined in qelib1.inc only; the include is ignored by the parser front end
+                let s = match r.below(12) {
+                    0 => format!("y {};", q1[0].0),
+                    1 => format!("id {};", q1[0].0),
+                    2 => format!("u1(pi/4) {};", q1[0].0),
+                    3 => format!("u2(0,pi) {};", q1[0].0),
+                    4 => format!("u3(pi/2,0,pi) {};", q1[0].0),
+                    5 => format!("ry(pi/2) {};", q1[0].0),
+                    6 if q2.len() == 2 => format!("ch {},{};", q2[0].0, q2[1].0),
+                    7 if q2.len() == 2 => format!("cy {},{};", q2[0].0, q2[1].0),
+                    8 if q2.len() == 2 => format!("crz(pi/4) {},{};", q2[0].0, q2[1].0),
+                    9 if q2.len() == 2 => format!("cu1(pi/2) {},{};", q2[0].0, q2[1].0),
+                    10 if q2.len() == 2 => format!("cu3(pi/2,0,pi) {},{};", q2[0].0, q2[1].0),
+                    11 if q3.len() == 3 => format!("cswap {},{},{};", q3[0].0, q3[1].0, q3[2].0),
+                    _ => format!("y {reg};"),
+                };
+                return ("include-only-gate".into(), s, none);
+            }
+            10 => {
+                // names quizx knows as gate kinds but does not declare in its prelude
+                let s = if q2.len() == 2 && r.chance(0.5) { format!("pp(pi/4) {},{};", q2[0].0, q2[1].0) } else { format!("measure_r {};", q1[0].0) };
+                return ("quizx-name-without-declaration".into(), s, none);
+            }
+            _ => {
+                if q2.len() == 2 {
+                    return ("undefined-gate-in-gate-body".into(), format!("wrap {},{};", q2[0].0, q2[1].0), "gate wrap a,b { cx a,b; nope a; }".into());
+                }
+            }
+        }
+    }
+}
+
+fn check_reject(family: &'static str, index: u64, r: &mut Rng) {
+    let c = ctx();
+    let regs = gen_regs(r, 1, true);
+    let mut feats = vec![];
+    let mut stmts: Vec<String> = vec![];
+    let mut expected: Vec<EGate> = vec![];
+    let n_before = r.below(5);
+    let n_after = r.below(4);
+    let mut guard = 0;
+    while stmts.len() < n_before && guard < 50 {
+        guard += 1;
+        if let Some((t, gs)) = gen_statement(r, &regs, &[], true, &mut feats) {
+            stmts.push(t);
+            expected.extend(gs);
+        }
+    }
+    let n_prefix_gates = expected.len();
+    let (class, bad, extra_def) = gen_unsupported(r, &regs);
+    let pos = stmts.len();
+    stmts.push(bad.clone());
+    guard = 0;
+    while stmts.len() < pos + 1 + n_after && guard < 50 {
+        guard += 1;
+        if let Some((t, gs)) = gen_statement(r, &regs, &[], true, &mut feats) {
+            stmts.push(t);
+            expected.extend(gs);
+        }
+    }
+    let mut text = assemble(r, &regs, &[], &stmts, None);
+    if !extra_def.is_empty() {
+        // definitions go right after the header line
+        text = text.replacen("OPENQASM 2.0;\n", &format!("OPENQASM 2.0;\n{extra_def}\n"), 1);
+    }
+    let where_ = if n_before == 0 && n_after == 0 {
+        "alone"
+    } else if n_before == 0 {
+        "first"
+    } else if n_after == 0 {
+        "last"
+    } else {
+        "middle"
+    };
+    c.count(&format!("reject:{class}"), 1);
+    c.count(&format!("reject-position:{where_}"), 1);
+    let det = |extra: Value| json!({"qasm": text, "unsupported_statement": bad, "construct": class, "position": where_, "extra": extra});
+    match parse(&text) {
+        Err(Caught::Oracle(m)) => c.inconclusive("oracle-error", json!({"msg": m})),
+        Err(e) => c.violation(&format!("reject|panic|{class}|{}", e.site()), family, index, det(json!({"expected": "Err(..)", "panic": e.text()}))),
+        Ok(Err(msg)) => {
+            c.count("reject:got-err", 1);
+            c.sample_n(8, || json!({"family": family, "construct": class, "statement": bad, "error": msg.chars().take(200).collect::<String>()}));
+        }
+        Ok(Ok(parsed)) => {
+            // was the construct silently dropped (all supported statements kept / only the prefix kept)?
+            let all_kept = compare(&parsed, regs.nq, &expected, false).is_ok();
+            let prefix_kept = compare(&parsed, regs.nq, &expected[..n_prefix_gates], false).is_ok();
+            let how = if all_kept {
+                "construct-silently-dropped"
+            } else if prefix_kept {
+                "supported-prefix-returned"
+            } else {
+                "other-circuit-returned"
+            };
+            c.violation(
+                &format!("reject|accepted|{class}|{how}"),
+                family,
+                index,
+                det(json!({"expected": "Err(..)", "observed": "Ok", "parsed": circuit_json(&parsed)})),
+            );
+        }
+    }
+    c.case(family, Some(hash_bytes(text.as_bytes())));
+}
+
+// ------------------------------------------------------------------------------------
+// run
+// ------------------------------------------------------------------------------------
 
 pub fn run() {
-    ctx().harness_error("C14 monitor not implemented yet");
+    let c = ctx();
+    let t = c.tier;
+    c.set_rule(
+        "cases = (i) circuits printed with to_qasm and parsed back, (ii) generated QASM texts with an independently computed expected circuit, (iii) texts with one unsupported construct; a case is non-trivial when the circuit/text contains at least one gate statement (zero-gate programs are counted but trivial); distinct = distinct circuits / texts by 64-bit hash",
+    );
+    c.assume("supported gate names: rz rx x z s t sdg tdg h cx cz ccx ccz swap xcx init_anc post_sel (+ built-in CX, measure); pp / measure_r / measure_d-with-variables are outside the property");
+    c.assume("0-qubit circuits are excluded: `qreg q[0];` is not valid OpenQASM 2");
+    c.assume("decimal parameters are single precision in the parser front end (openqasm Expr::Real(f32)) and are divided by pi in f32: expected phase within 1e-6 * max(1,|phase|) on the circle; integer/pi arithmetic and dyadic decimals times pi must be exact");
+    c.assume("self-test: the phase comparison and expectation model are exercised by the 272 exhaustive k/d cases, which must pass for the run to mean anything");
+
+    // self-test of the expectation arithmetic
+    {
+        let a = PhaseVal::exact(3, 4).add(&PhaseVal::exact(-1, 2)).scale(2, 1);
+        if a.exact != Some((1, 2)) || !phase_matches(&a, (5, 2)) || phase_matches(&a, (1, 4)) || !phase_matches(&PhaseVal::approx(0.25), (250001, 1000000)) || phase_matches(&PhaseVal::approx(0.25), (26, 100)) {
+            c.harness_error("C14 expectation self-test failed");
+            return;
+        }
+        if (circle_dist_f(0.999, -0.999) - 0.002).abs() > 1e-12 {
+            c.harness_error("C14 circle distance self-test failed");
+            return;
+        }
+    }
+
+    // (i-a) exhaustive single-gate circuits
+    let space = Arc::new(single_gate_space());
+    let n_space = space.len();
+    {
+        let space = space.clone();
+        par_cases("single-gate-exhaustive", n_space, move |_r, i| {
+            let circ = &space[i as usize];
+            let ok = check_roundtrip("single-gate-exhaustive", i, circ, true);
+            let c = ctx();
+            c.count(&format!("single-gate:{}:{}", circ.gates[0].name(), if ok { "ok" } else { "bad" }), 1);
+            c.case("single-gate-exhaustive", Some(circ_hash(circ)));
+        });
+    }
+    let exhaustive_done = !c.out_of_time();
+    c.extra(
+        "exhaustive_single_gate",
+        json!({"phases": "all k/d with d<=16, -d<k<=d on rz and rx", "phase_free_gates": "every supported gate on every tuple of distinct qubits of 3", "cases": n_space, "completed": exhaustive_done}),
+    );
+
+    // (i-a') observation only: how far beyond d = 16 is the decimal round trip exact?
+    {
+        let dmax = t.pick(128i64, 512i64);
+        let mut first_bad: Option<(i64, i64)> = None;
+        let mut bad_count = 0u64;
+        let mut total = 0u64;
+        'outer: for d in 17..=dmax {
+            for k in (-d + 1)..=d {
+                if gcd(k as i128, d as i128) != 1 {
+                    continue;
+                }
+                if c.out_of_time() {
+                    break 'outer;
+                }
+                total += 1;
+                let circ = Circ { n: 1, gates: vec![G::Rz(0, (k, d))] };
+                if !check_roundtrip("observe-large-denominators", 0, &circ, false) {
+                    bad_count += 1;
+                    if first_bad.is_none() {
+                        first_bad = Some((k, d));
+                    }
+                }
+            }
+        }
+        c.extra(
+            "beyond_property_observation",
+            json!({"what": "rz(k/d) print/parse exactness for 17 <= d <= dmax (not part of the property, no verdict)", "dmax": dmax, "reduced_fractions_tried": total, "not_exact": bad_count, "first_not_exact": first_bad.map(|(k, d)| format!("{k}/{d}"))}),
+        );
+    }
+
+    // (i-b) zero-gate circuits and idle qubits
+    par_cases("zero-gate-circuits", 8, move |_r, i| {
+        let circ = Circ { n: 1 + i as usize, gates: vec![] };
+        check_roundtrip("zero-gate-circuits", i, &circ, true);
+        ctx().case("zero-gate-circuits", None);
+    });
+    par_cases("idle-qubits", 24, move |r, i| {
+        // n qubits, gates only on one of them
+        let n = 2 + (i as usize % 6);
+        let q = r.below(n);
+        let circ = Circ { n, gates: vec![G::H(q), G::Rz(q, (1, 4))] };
+        check_roundtrip("idle-qubits", i, &circ, true);
+        ctx().case("idle-qubits", Some(circ_hash(&circ)));
+    });
+
+    // (i-c) random circuits
+    let (n_rand, max_q, max_d) = t.pick((8000usize, 6usize, 40usize), (400_000usize, 10usize, 120usize));
+    par_cases("random-circuits", n_rand, move |r, i| {
+        let mut p = CircParams::unitary(max_q, max_d, PhPool::Float);
+        p.pp = false;
+        p.ancilla = true;
+        p.measure = false;
+        let mut circ = gen_circuit(r, &p);
+        redraw_phases(r, &mut circ);
+        if r.chance(0.3) {
+            circ.n += 1 + r.below(3); // idle qubits at the end
+        }
+        let ok = check_roundtrip("random-circuits", i, &circ, true);
+        let c = ctx();
+        c.count(if ok { "random:ok" } else { "random:bad" }, 1);
+        c.count("random:gates", circ.gates.len() as u64);
+        if circ.gates.is_empty() {
+            c.count("random:zero-gate-circuits", 1);
+        }
+        for g in &circ.gates {
+            c.count(&format!("gate:{}", g.name()), 1);
+        }
+        c.maximum("max_gates", circ.gates.len() as u64);
+        c.maximum("max_qubits", circ.n as u64);
+        c.case("random-circuits", if circ.gates.is_empty() { None } else { Some(circ_hash(&circ)) });
+        c.sample_n(3, || json!({"family": "random-circuits", "index": i, "circuit": circ_json(&circ)}));
+    });
+
+    // (ii) generated texts
+    let n_text = t.pick(10_000usize, 600_000usize);
+    par_cases("generated-texts", n_text, move |r, i| {
+        let p = gen_program(r, 12);
+        check_text("generated-texts", i, &p);
+        let c = ctx();
+        c.case("generated-texts", if p.expected.is_empty() { None } else { Some(hash_bytes(p.text.as_bytes())) });
+        c.sample_n(6, || json!({"family": "generated-texts", "index": i, "qasm": p.text, "features": p.features}));
+    });
+    // zero-statement texts with several registers
+    par_cases("texts-without-statements", 40, move |r, i| {
+        let regs = gen_regs(r, 1, false);
+        let text = assemble(r, &regs, &[], &[], None);
+        let p = Program { text, regs, expected: vec![], features: vec!["zero-statements".into()] };
+        check_text("texts-without-statements", i, &p);
+        ctx().case("texts-without-statements", None);
+    });
+
+    // (iii) rejection corpus
+    let n_rej = t.pick(5000usize, 200_000usize);
+    par_cases("unsupported-constructs", n_rej, move |r, i| {
+        check_reject("unsupported-constructs", i, r);
+    });
+    // observation only: user-declared opaque gates are accepted as UnknownGate
+    {
+        let text = "OPENQASM 2.0;\nqreg q[2];\nopaque mystery(alpha) a,b;\nh q[0];\nmystery(pi/2) q[0],q[1];\n";
+        let obs = match parse(text) {
+            Ok(Ok(p)) => json!({"result": "Ok", "parsed": circuit_json(&p)}),
+            Ok(Err(e)) => json!({"result": "Err", "error": e}),
+            Err(e) => json!({"result": "panic", "panic": e.text()}),
+        };
+        c.extra("observation_user_opaque_gate", json!({"qasm": text, "observed": obs, "note": "no verdict: a declared opaque gate is not an undefined name"}));
+    }
+    c.extra("exhaustive", json!(false));
 }
